@@ -210,16 +210,24 @@ def r2(report, db, cg, M):
                             rp.node, rel(rp.path))
     loop = loops[0]
     t = loop.test
+    bufs = [x.targets[0].id for x in ast.walk(rp.node)
+            if isinstance(x, ast.Assign) and isinstance(x.targets[0],
+                                                        ast.Name)
+            and ast.unparse(x.value).endswith('PacketBuffer()')]
+    recv = shared.received_length_exprs(rp, bufs[0]) if len(bufs) == 1 \
+        else set()
     length_ok = (isinstance(t, ast.Compare) and len(t.ops) == 1
                  and isinstance(t.ops[0], ast.Lt)
-                 and isinstance(t.left, ast.Call)
-                 and isinstance(t.left.func, ast.Name)
-                 and t.left.func.id == 'len'
+                 and ast.unparse(t.left) in recv
                  and isinstance(t.comparators[0], ast.Name))
     if not length_ok:
-        raise AnalysisError('read_packet: reassembly loop condition is not '
-                            '`len(<buffer>) < <length>`', loop,
-                            rel(rp.path))
+        report.violation(R, 'reassembly-condition', rp.path, loop,
+                         rp.qualname, 'the reassembly loop runs while [%s]; '
+                         'it must run while the number of bytes received '
+                         'for this frame (len of the frame buffer, or a '
+                         'counter kept equal to it) is below the length '
+                         'prefix' % ast.unparse(t))
+        return
     lname = t.comparators[0].id
     # length is the frame's VarInt prefix
     src = [x for x in ast.walk(rp.node) if isinstance(x, ast.Assign)
